@@ -9,6 +9,7 @@ import (
 	"runtime/debug"
 	"sort"
 	"strings"
+	"time"
 
 	"github.com/xujiajun/nutsdb"
 	"github.com/xujiajun/nutsdb/ds/zset"
@@ -20,6 +21,8 @@ type DBH struct {
 	Dir  string
 	Cfg  Config
 	Dead bool // a panic happened while the lock may be held; never touch again
+
+	lastTxMs int64 // wall-clock millisecond of the last transaction begun on this directory
 }
 
 func panicSite(stack []byte) string {
@@ -74,7 +77,9 @@ func (h *DBH) Reopen() error {
 	// Transaction ids are time based (millisecond clock + per-process sequence). A
 	// restarted process never shares a millisecond with its predecessor, so the
 	// simulated restart does not either (stated assumption, DESIGN.md 2.2).
-	waitMs()
+	for time.Now().UnixMilli() <= h.lastTxMs {
+		time.Sleep(100 * time.Microsecond)
+	}
 	n, err := OpenDB(h.Dir, h.Cfg)
 	if err != nil {
 		return err
@@ -108,6 +113,7 @@ var errFn = errors.New("verif: fn error")
 // RunTx executes a step of kind tx/view. ops are executed in order; an op that
 // returns an error does not stop the transaction.
 func (h *DBH) RunTx(st Step, writable bool, pre func(i int, op *Op)) (tr TxResult) {
+	defer func() { h.lastTxMs = time.Now().UnixMilli() }()
 	end := st.End
 	if end == "" {
 		end = "commit"
